@@ -44,7 +44,18 @@ func replayObligation(en *Engine, opts checkOpts, r *obResult, path string) bool
 		"repo":          opts.repo,
 	}
 	confirmed := false
-	if tmpl := replayTemplates[r.O.Func]; tmpl != nil {
+	if attempted, ok, extra := replayScalar(en, opts, r); attempted {
+		for k, v := range extra {
+			rec[k] = v
+		}
+		if _, has := rec["replayed_on_real_code"]; !has {
+			rec["replayed_on_real_code"] = false
+		}
+		confirmed = ok
+		if !ok {
+			rec["note"] = "the solver's model was run against the real code but did not confirm the violation (see replay_log / confirm_status); the obligation discharged on the pinned tree and fails now"
+		}
+	} else if tmpl := replayTemplates[r.O.Func]; tmpl != nil {
 		ok, log := tmpl(en, opts, r, model)
 		rec["replay_log"] = log
 		rec["replayed_on_real_code"] = true
